@@ -79,6 +79,11 @@ def gen_score(rng: random.Random) -> dict:
     small = rng.random() < 0.5
     n_ev = rng.choice([1, 1, 2, 2, 3, 3, 4, 5, 6, 8, 10])
     budget = 4000                                # keep the run short: total file ticks
+    long_piece = rng.random() < 0.003            # now and then a piece of several minutes (> 2**16 ticks)
+    if long_piece:
+        tl_tpb, step, small = 480, max(1, FILE_TPB // 480), False
+        n_ev = rng.choice([2, 3, 4])
+        budget = rng.choice([70000, 90000, 140000])
     events = []
     sounding = {}                                # pitch -> end tick
     now = 0
@@ -136,7 +141,7 @@ def gen_score(rng: random.Random) -> dict:
         events.append({"dur": dur, "voices": voices, "tuple": as_tuple,
                        "share": rng.random() < 0.5})
         now += dur
-    via = "pdict" if (tl_tpb == 480 and rng.random() < 0.2) else "timeline"
+    via = "pdict" if (tl_tpb == 480 and rng.random() < (0.7 if long_piece else 0.2)) else "timeline"
     return {"kind": "score", "tl_tpb": tl_tpb, "events": events, "via": via}
 
 
